@@ -353,6 +353,39 @@ HYBRIDS = {
 }
 
 
+def random_hybrid(name):
+    """'random:<seed>': random add_isohybrid parameters (geometry, slot, type, offset, id, EFI / Mac) and later edits"""
+    import random
+    rnd = random.Random('hybrid/' + name)
+    hyb = dict(mbr_id=rnd.choice([0, 1, 0xffffffff, rnd.randrange(1 << 32)]))
+    mode = rnd.choice(['plain', 'plain', 'efi', 'mac'])
+    if mode == 'efi':
+        hyb['efi'] = True
+    elif mode == 'mac':
+        hyb['mac'] = True
+    hyb['geometry_heads'] = rnd.choice([1, 2, 5, 16, 64, 255, 256])
+    hyb['geometry_sectors'] = rnd.choice([1, 2, 17, 32, 63])
+    while hyb['geometry_heads'] * hyb['geometry_sectors'] * 512 > 1 << 19:       # keep the padded image small
+        hyb['geometry_heads'] = max(1, hyb['geometry_heads'] // 2)
+    slots = [e for e in (1, 2, 3, 4) if not ((mode in ('efi', 'mac') and e == 2) or (mode == 'mac' and e == 3))]
+    hyb['part_entry'] = rnd.choice(slots)
+    if rnd.random() < 0.5:
+        hyb['part_type'] = 0 if mode == 'mac' else rnd.choice([0, 0x17, 0x83, 0xff])      # Mac demands type 0
+    if rnd.random() < 0.4:
+        hyb['part_offset'] = rnd.choice([1, 4, 16, 63])
+    later = []
+    for i in range(rnd.randint(0, 3)):
+        if rnd.random() < 0.7:
+            later.append(('file', '/%sL%d.;1' % (rnd.choice(['', '0', 'Z']), i), rnd.choice([1, 2048, 2049, 30000])))
+        else:
+            later.append(('dir', '/LD%d' % i))
+    return dict(), hyb, later
+
+
+def get_hybrid(name):
+    return random_hybrid(name) if name.startswith('random:') else HYBRIDS[name]
+
+
 def crc32(data):
     import zlib
     return zlib.crc32(bytes(data)) & 0xffffffff
@@ -411,7 +444,7 @@ class HybridImage(Base):
     def setup(self, c):
         S.pin_environment(c)
         a = c.a
-        kw, hyb, later = HYBRIDS[self.variant]
+        kw, hyb, later = get_hybrid(self.variant)
         iso = S.new_image(c, **kw)
         a.contents = {'/ISOLINUX.BIN;1': ISOLINUX}
         S.call(c, iso, 'add_fp', S.data_file(c, ISOLINUX), len(ISOLINUX), iso_path='/ISOLINUX.BIN;1')
@@ -448,7 +481,7 @@ class HybridImage(Base):
 
     def post(self, c, a, out):
         img = list(a.out.items) if c.symbolic else list(a.out.getvalue())
-        kw, hyb, later = HYBRIDS[self.variant]
+        kw, hyb, later = get_hybrid(self.variant)
         cl = {}
         if a.first is not None:
             cl['remastering-is-a-fixpoint'] = Eq(V.mk_bytes(img), a.first)
